@@ -290,6 +290,13 @@ class TimedList(Generic[Item]):
     def deepcopy(self):
         return deepcopy(self)
 
+    def __deepcopy__(self, memo):
+        # DataFrame.copy(deep=True) copies an object column's pointers, not the objects
+        df = self.df.copy()
+        for c in df.columns[df.dtypes == object]:
+            df[c] = [deepcopy(v, memo) for v in df[c]]
+        return self.__class__(df)
+
     def describe(self) -> pd.DataFrame:
         return self.df.describe()
 
